@@ -257,6 +257,9 @@ class MessagePackRpc(MessagePackDocument):
         elif msgtype == MessagePackRpc.MSGPACK_RESPONSE:
             assert message == MessagePackRpc.RESPONSE
 
+        elif msgtype == MessagePackRpc.MSGPACK_ERROR:
+            assert message == MessagePackRpc.RESPONSE
+
         elif msgtype == MessagePackRpc.MSGPACK_NOTIFY:
             raise NotImplementedError()
 
